@@ -259,7 +259,9 @@ def directly_under(g, rid, atom, ignore=()):
     for t, lab in g.guards(rid, exc=False):
         if isinstance(t, ast.Name) and t.id in ignore:
             continue  # the 'frame is delimited' flag may refine the verdict below the test
-        if best is None or t.lineno >= best[0].lineno:
+        from sa.core import positions
+        _pos = positions(g.fn) if hasattr(g, "fn") else {}
+        if best is None or _pos.get(id(t), t.lineno) >= _pos.get(id(best[0]), best[0].lineno):
             best = (t, lab)
     return best is not None and (atom, True) in facts(best[0], best[1] == "true")
 
